@@ -64,6 +64,7 @@ func atomsString(atoms []core.Atom) []string {
 
 func runC01(c *Ctx) {
 	checkFamilySeparation(c)
+	checkQuoteIdentifier(c)
 	npaths := 0
 	forEachMatcher(c, "R01", func(m *matcherCtx) {
 		p, d, R := c.P, m.d, c.R
